@@ -14,6 +14,7 @@ import m_copyw
 import m_amap
 import m_own
 import m_xen
+import m_system
 
 
 def c09(ctx):
@@ -47,30 +48,37 @@ def c07(ctx):
     ctx.cov["release_profile_runs"] = 2
 
 
+def with_system(f):
+    def g(ctx):
+        f(ctx)
+        m_system.run(ctx)
+    return g
+
+
 PROPS = {
     "C02": m_guest.run,
-    "C03": m_guest.run,
+    "C03": with_system(m_guest.run),
     "C01": m_volatile.run,
     "C04": m_volatile.run,
-    "C05": both,
+    "C05": with_system(both),
     "C15": m_xen.xctor,
-    "C16": both,
+    "C16": with_system(both),
     "C17": c17,
     "C18": c18,
     "C07": c07,
     "C06": m_copyw.run,
     "C08": m_conc.run,
     "C09": c09,
-    "C10": m_regions.run,
-    "C11": m_amap.run,
-    "C12": m_own.run,
+    "C10": with_system(m_regions.run),
+    "C11": with_system(m_amap.run),
+    "C12": with_system(m_own.run),
     "C13": m_streams.run,
     "C14": m_guest.run_c14,
     "C19": m_addr.run,
     "C20": m_endian.run,
 }
 
-REPLAY_MODULES = {"bitmap", "volatile", "guest"}
+REPLAY_MODULES = {"bitmap", "volatile", "guest", "sys"}
 
 
 def replay(pid, path):
